@@ -1125,3 +1125,24 @@ func (n *Node) EditingGroup() string {
 	}
 	return ""
 }
+
+var ownerRules = []refRule{
+	rr(`^group-policy (\S+) attributes$`, "gp"),
+	rr(`^tunnel-group (\S+) (?:general|ipsec|webvpn|ppp)-attributes$`, "tg"),
+	rr(`^username (\S+) `, "user"),
+	rr(`^aaa-server (\S+) `, "aaa"),
+}
+
+// Owner returns the named object a top-level line defines or belongs to
+// (attribute blocks belong to their object).
+func Owner(head string) (Ref, bool) {
+	if d, ok := defines(head); ok {
+		return d, true
+	}
+	for _, r := range ownerRules {
+		if m := r.re.FindStringSubmatch(head); m != nil {
+			return Ref{r.kinds[0], m[1]}, true
+		}
+	}
+	return Ref{}, false
+}
